@@ -238,13 +238,87 @@ func withRealRand(f func()) {
 
 // ---------- the real code
 
+var implMu sync.RWMutex
+
+// histBufs: the caller-owned buffers of a history case (header `hist`): argument i of every
+// call of the case lives in the SAME backing array, overwritten in place between the calls.
+type histBufs struct{ arr [8][]byte }
+
+func newHistBufs() *histBufs {
+	h := &histBufs{}
+	for i := range h.arr {
+		h.arr[i] = make([]byte, 1024)
+	}
+	return h
+}
+
+func (h *histBufs) put(i int, b []byte) []byte {
+	if h == nil || i < 0 || i >= len(h.arr) || len(b) > len(h.arr[i]) {
+		return b
+	}
+	for j := range h.arr[i] {
+		h.arr[i][j] = 0
+	}
+	copy(h.arr[i], b)
+	return h.arr[i][:len(b):len(b)]
+}
+
+// roleOf: which shared buffer argument i of op lives in: 0 secret, 1 additional data,
+// 2 plaintext / message, 3 salt.
+func roleOf(op string, i int) int {
+	var roles []int
+	switch op {
+	case "enc-cbc", "raw-enc-cbc":
+		roles = []int{-1, -1, 3, 0, 2}
+	case "dec-cbc", "rt-cbc":
+		roles = []int{-1, -1, 0, 2}
+	case "raw-dec-cbc":
+		roles = []int{-1, -1, -1, 0, 2}
+	case "enc-gcm", "raw-enc-gcm":
+		roles = []int{-1, -1, 3, 0, 1, 2}
+	case "dec-gcm", "rt-gcm":
+		roles = []int{-1, -1, 0, 1, 2}
+	case "raw-dec-gcm":
+		roles = []int{-1, -1, -1, 0, 1, 2}
+	}
+	if i < len(roles) && roles[i] >= 0 {
+		return roles[i]
+	}
+	return 7
+}
+
+// warmUp: one call of each family with arguments no case uses; displaces whatever a
+// library-level memo still holds from earlier cases, so that a history case (and every
+// candidate of the shrinker, and the replay in a fresh process) depends on its own calls only.
+func warmUp() {
+	withRealRand(func() {
+		if e, err := cryptz.Encrypt([]byte{0x5a}, []byte("warm-up-secret-cbc")); err == nil {
+			_, _ = cryptz.Decrypt(e, []byte("warm-up-secret-cbc"))
+		}
+		if e, err := cryptz.GCMEncrypt([]byte{0x5b}, []byte("warm-up-secret-gcm"), []byte{1}); err == nil {
+			_, _ = cryptz.GCMDecrypt(e, []byte("warm-up-secret-gcm"), []byte{1})
+		}
+	})
+}
+
 func impl(c core.Case) []string {
 	out := make([]string, 0, len(c.Lines))
 	hdr := core.Toks(c.Lines[0])
-	if len(hdr) == 3 && hdr[2] == "x" {
+	var hb *histBufs
+	if len(hdr) == 3 && hdr[2] == "hist" {
+		implMu.Lock()
+		defer implMu.Unlock()
+		core.Guard(func() string { warmUp(); return "" })
+		hb = newHistBufs()
 		out = append(out, "ok")
 	} else {
-		out = append(out, "bad-op")
+		implMu.RLock()
+		defer implMu.RUnlock()
+		if len(hdr) == 3 && hdr[2] == "x" {
+			out = append(out, "ok")
+		} else {
+			out = append(out, "bad-op")
+		}
 	}
 	for _, l := range c.Lines[1:] {
 		t := core.Toks(l)
@@ -252,7 +326,7 @@ func impl(c core.Case) []string {
 			out = append(out, "bad-op")
 			continue
 		}
-		out = append(out, core.Guard(func() string { return step(t) }))
+		out = append(out, core.Guard(func() string { return step(t, hb) }))
 	}
 	return out
 }
@@ -353,7 +427,7 @@ func decStream(ty string, out io.Writer, in io.Reader, secret []byte) error {
 	return cryptz.DecryptStreamTo(out, in, secret)
 }
 
-func step(t []string) string {
+func step(t []string, hb *histBufs) string {
 	if len(t) < 2 {
 		return "bad-op"
 	}
@@ -367,7 +441,7 @@ func step(t []string) string {
 			if !ok {
 				return false
 			}
-			a[i] = b
+			a[i] = hb.put(roleOf(t[0], i), b)
 		}
 		return true
 	}
@@ -456,6 +530,7 @@ func step(t []string) string {
 		if !ok1 || !ok2 || !ok3 || !ok4 || len(salt) != 8 {
 			return "bad-op"
 		}
+		secret, pt = hb.put(0, secret), hb.put(2, pt)
 		var in io.Reader
 		if t[4] == "w" {
 			in = bytes.NewReader(pt)
@@ -484,6 +559,7 @@ func step(t []string) string {
 		if !ok2 || !ok3 || !ok4 {
 			return "bad-op"
 		}
+		secret, ct = hb.put(0, secret), hb.put(2, ct)
 		if t[3] == "b" {
 			var buf bytes.Buffer
 			if err := decStream(t[1], &buf, bytes.NewReader(ct), secret); err != nil {
